@@ -208,6 +208,45 @@ fn cmp_pair(col: &mut TCol, x: &[u8], y: &[u8], xb: &[(&'static str, Bytes)], yb
             chk_eq!(col, Bytes, &BytesMut, l, &r, x, y, "Bytes", "&BytesMut", ln, rn);
         }
     }
+    // ---- both operands are views of ONE shared buffer (same start when one is a prefix of the other, adjacent otherwise,
+    //      a clone when equal): pointer-based shortcuts in eq / cmp / hash must not change the answer
+    {
+        let mut views: Vec<(&'static str, Bytes, Bytes)> = Vec::new();
+        let mut cat = x.to_vec();
+        cat.extend_from_slice(y);
+        let buf = Bytes::from(cat);
+        views.push(("adjacent views of one buffer", buf.slice(..x.len()), buf.slice(x.len()..)));
+        if y.starts_with(x) {
+            let b = Bytes::from(y.to_vec());
+            views.push(("same start, shorter vs longer", b.slice(..x.len()), b.clone()));
+            let mut t = b.clone();
+            t.truncate(x.len());
+            views.push(("truncated clone vs original", t, b));
+        }
+        if x.starts_with(y) {
+            let b = Bytes::copy_from_slice(x);
+            views.push(("same start, longer vs shorter", b.clone(), b.slice(..y.len())));
+            let mut rest = b.clone();
+            let head = rest.split_to(0);
+            if y.is_empty() {
+                views.push(("rest vs empty head of split_to(0)", rest, head));
+            }
+        }
+        if x == y {
+            let b = Bytes::copy_from_slice(x);
+            views.push(("clone", b.clone(), b));
+        }
+        for (vn, l, r) in &views {
+            chk_eq!(col, Bytes, Bytes, l, r, x, y, "Bytes", "Bytes", vn, "same buffer");
+            chk_ord!(col, Bytes, Bytes, l, r, x, y, "Bytes", "Bytes", vn, "same buffer");
+            chk_eq!(col, Bytes, &Bytes, l, &r, x, y, "Bytes", "&Bytes", vn, "same buffer");
+            col.evals += 1;
+            // equal values must hash identically (the converse is not required of a hash)
+            if Ord::cmp(l, r) != x.cmp(y) || (x == y && hash_log(l) != hash_log(r)) {
+                col.viol("C14", "cmp", "Bytes", "Bytes", format!("views of one buffer: x={:02x?} y={:02x?}", x, y), replay14(x, y));
+            }
+        }
+    }
     // ---- Bytes on the right
     for (rn, r) in yb {
         chk_eq!(col, [u8], Bytes, x, r, x, y, "[u8]", "Bytes", "-", rn);
